@@ -309,6 +309,9 @@ impl Prop for C17 {
 			"Interrupted on the source may be absorbed (read_exact, io::copy) or surface as an I/O error; both are accepted".into(),
 		]
 	}
+	fn expected_probes(&self) -> Vec<&'static str> {
+		vec!["fault_truncate", "fault_sync_byte", "fault_count_rewrite", "fault_size_rewrite", "fault_snappy_crc", "fault_snappy_payload", "fault_single_byte", "io_fault_fired", "io_error_surfaced", "io_interrupted_absorbed"]
+	}
 	fn budget(&self, tier: Tier) -> (u64, u64) {
 		match tier {
 			Tier::Quick => (1_500, 80),
